@@ -167,6 +167,18 @@ CHECKS["C19"] = dict(
          "in (0,1]. scipy.ndimage resampling / morphology primitives are parameters, sampled on real converters.",
     design="5 C19", technique="Lean 4 proof (refinement of the operator methods to a denotational semantics by induction over expressions) + expression-tree correspondence")
 
+CHECKS["C20"] = dict(
+    text="Theorems: for EVERY chunking (any number and sizes of chunks, also smaller than the depth or empty) "
+         "and depth, each position inside the image is kept by exactly one block of the overlapped block-wise "
+         "picking and positions in the outside padding by none; the kept local position is reported at the "
+         "original pixel position times scale; with a detector that is right inside block cores the concatenated "
+         "result lists every particle exactly once and nothing else; a numpy image is the one-chunk case; the "
+         "overlap depths cover the pickers' exclusion radii (LoG/DoG, template matching with odd and even "
+         "templates); the max-filter footprint contains its centre and stays within the radius; rotation lookup "
+         "by argmax index. Filter responses of planted particles being local maxima is a parameter, sampled with "
+         "the three real pickers over chunkings, scales and dtypes.",
+    design="5 C20", technique="Lean 4 proof (chunk-core partition for all chunk lists, exactly-once theorem) + stub-detector correspondence through the real pick_molecules")
+
 CHECKS["C10"] = dict(
     text="Theorems: for every number of threads and EVERY schedule of TemplateMaskCache.get (statement "
          "granularity; Backend keys compared by wrapped module, cache filled at construction) no thread "
